@@ -1022,6 +1022,14 @@ func c09Layers(k *fw.K, pool [][]int) {
 		}
 	}
 	full := initializers.NewFull(&initializers.FullConfig{Value: 2})
+	// the size preconditions hold whatever initializers are configured, and for a map that an earlier construction has seen
+	for _, ab := range [][2]int{{0, 2}, {-1, 3}, {2, 0}, {3, -2}, {0, 0}} {
+		tryFC(fmt.Sprintf("inputs=%d,outputs=%d,explicit-weight-initializer", ab[0], ab[1]), false, &layers.FCConfig{Inputs: ab[0], Outputs: ab[1], Initializers: map[string]layers.Initializer{"Weight": full}})
+		tryFC(fmt.Sprintf("inputs=%d,outputs=%d,explicit-initializers", ab[0], ab[1]), false, &layers.FCConfig{Inputs: ab[0], Outputs: ab[1], Initializers: map[string]layers.Initializer{"Weight": full, "Bias": full}})
+		shared := map[string]layers.Initializer{}
+		tryFC("2x2 with an empty initializer map (kept by the caller)", true, &layers.FCConfig{Inputs: 2, Outputs: 2, Initializers: shared})
+		tryFC(fmt.Sprintf("inputs=%d,outputs=%d,the initializer map of an earlier construction", ab[0], ab[1]), false, &layers.FCConfig{Inputs: ab[0], Outputs: ab[1], Initializers: shared})
+	}
 	tryFC("nil-weight-initializer", false, &layers.FCConfig{Inputs: 2, Outputs: 2, Initializers: map[string]layers.Initializer{"Weight": nil}})
 	tryFC("nil-bias-initializer", false, &layers.FCConfig{Inputs: 2, Outputs: 2, Initializers: map[string]layers.Initializer{"Bias": nil}})
 	tryFC("custom-initializers", true, &layers.FCConfig{Inputs: 2, Outputs: 3, Initializers: map[string]layers.Initializer{"Weight": full, "Bias": full}})
@@ -1280,7 +1288,7 @@ func c09RepeatedBackprop(k *fw.K, shape []int) {
 		}
 	}
 	for _, in := range ins {
-		for variant := 0; variant < 6; variant++ {
+		for variant := 0; variant < 7; variant++ {
 			in, variant := in, variant
 			x := rt.MustLeaf(UniquePos(k.Rng, shape, 0.3, 1.2), true)
 			xs := []tensor.Tensor{x}
@@ -1289,6 +1297,13 @@ func c09RepeatedBackprop(k *fw.K, shape []int) {
 			}
 			k.Count("calls", 3)
 			k.Key("BackPropagate-again/%s/%d/%v", in.Op, variant, in.F)
+			var lateErr error
+			defer func(op string, variant int) {
+				if lateErr != nil && !k.Failed() {
+					k.Case = c09call{Entry: "BackPropagate (on a tensor derived after a pass)", Args: fmt.Sprintf("graph x -> Scale -> %s on shape %v", op, shape), Want: "nil error: an untracked root violates no precondition"}
+					k.Failf("BackPropagate on an untracked tensor derived from an already back-propagated graph (x -> Scale -> %s, shape %v) returned an error: %v", op, shape, lateErr)
+				}
+			}(in.Op, variant)
 			if p := call(func() {
 				h := x.Scale(1.5) // a trunk
 				ys := []tensor.Tensor{h}
@@ -1308,6 +1323,25 @@ func c09RepeatedBackprop(k *fw.K, shape []int) {
 					return
 				}
 				switch variant {
+				case 6: // tensors DERIVED from the graph after its pass (a new result over the spent leaf, the leaf's gradient, what an optimizer
+					// step left behind): untracked roots - BackPropagate changes nothing and reports no error
+					if e := tensor.BackPropagate(y); e != nil {
+						return
+					}
+					late := []tensor.Tensor{x.Exp(), h.Scale(2)}
+					if g := x.Gradient(); g != nil {
+						late = append(late, g, g.Tanh())
+						w := x
+						if optimizers.NewSGD(nil).Update(&w) == nil && w != nil {
+							late = append(late, w, w.Scale(3))
+						}
+					}
+					for i, t := range late {
+						if e := tensor.BackPropagate(t); e != nil {
+							lateErr = fmt.Errorf("tensor %d derived after the pass: %v", i, e)
+							return
+						}
+					}
 				case 0: // the same root twice
 					_ = tensor.BackPropagate(y)
 					_ = tensor.BackPropagate(y)
